@@ -257,7 +257,7 @@ def designated(impl):
             for _ in range(len(impl.nodes) + 1):
                 if not (n.kind == FORK and n not in ios): break
                 n = n.ins[0].driver
-            des = n
+            des = None if n in ios else n        # a port is no designated cell (repair of D32)
     except Exception:
         return None
     seq = [n for n in impl.nodes if 'dff' in n.kind.lower() or 'latch' in n.kind.lower()]
@@ -266,7 +266,8 @@ def designated(impl):
 
 def impl_ok(impl):
     """well-formed use of substitute, implementation side (the model's `implStatic`): a well-formed circuit whose port list has
-    no duplicates and whose designated cell is not a port (a feed-through implementation makes a port the designated cell)"""
+    no duplicates and whose designated cell is not a port (since the repair of D32 a walk that ends at a port gives no designated
+    cell; only a flip-flop/latch that is itself a port is still excluded)"""
     if len(set(map(id, impl.io_nodes))) != len(impl.io_nodes) or wfc_failures(impl): return False
     d = designated(impl)
     return d is None or not any(d is n for n in impl.io_nodes)
@@ -275,12 +276,10 @@ def impl_ok(impl):
 def sub_ok(c, u, impl):
     """well-formed use of `c.substitute(u, impl)` as far as the caller is concerned, on the real objects (the model's
     `substKinds` / `noSelfLoop`): u is a cell of c; no line runs from u to u; when the implementation has neither an
-    output nor a state element (then u is removed) u is not a port"""
+    output nor a state element, or is a feed-through (no designated cell: then u is removed), u is not a port"""
     if u.kind == FORK or not (0 <= u.index < len(c.nodes) and c.nodes[u.index] is u): return False
     if any(l is not None and l.driver is u for l in u.ins): return False
-    has_out = any(len(n.ins) > 0 for n in impl.io_nodes)
-    has_seq = any('dff' in n.kind.lower() or 'latch' in n.kind.lower() for n in impl.nodes)
-    if not has_out and not has_seq and any(n is u for n in c.io_nodes): return False
+    if designated(impl) is None and any(n is u for n in c.io_nodes): return False      # no designated cell: u is removed
     return True
 
 
@@ -705,7 +704,13 @@ def corpus_cases():
 FORK_GAP_WITNESS = ['n:a:input', 'n:u:CELLX1', 'n:o:output', 'l:0:-:1:-', 'l:1:0:2:-', 'io:0', 'io:2',
                     'sub:1:A,input|F,__fork__|X,INV1|O1,output|O2,output;0.0.1.0|1.0.3.0|1.1.2.0|2.0.4.0;0,4,3']
 
+# D32 (fixed): feed-through implementation input -> fork -> output; before the repair the port became the designated cell and the
+# graph was corrupted, now the instance is removed and the fork takes its place (C09.exFeed)
+FEEDTHROUGH_WITNESS = ['n:a:input', 'n:u:CELLX1', 'n:o:output', 'l:0:-:1:-', 'l:1:0:2:-', 'io:0', 'io:2',
+                       'sub:1:A,input|a,__fork__|X,output;0.0.1.0|1.0.2.0;0,2', 'copy', 'pickle']
+
 FIXED = [
+    FEEDTHROUGH_WITNESS,
     # hand-written histories: every operation kind, swap-with-last on both lists, squeeze in the middle, growth by explicit pins
     ['n:a:input', 'n:a:__fork__', 'l:0:-:1:-', 'n:g:AND2', 'l:1:-:2:1', 'l:1:-:2:0', 'n:b:__fork__', 'l:1:2:3:3', 'rl:1', 'rl:0', 'io:0',
      'n:o:output', 'l:2:4:4:2', 'rl:1', 'rn:3', 'copy', 'pickle', 'l:0:-:1:-', 'elim'],
@@ -1054,8 +1059,6 @@ def boundary_notes(ck):
         'eliminate_1to1_forks with a 1:1 fork that has two input lines': ['n:f:__fork__', 'n:g:BUF1', 'n:h:BUF1', 'l:0:-:1:-', 'l:2:-:0:-', 'l:1:-:0:-', 'elim'],
         'duplicate cell name': ['n:a:AND2', 'n:a:OR2'],
         'remove_dangling_nodes called on a port itself': ['n:a:input', 'io:0', 'rd:0'],
-        'substitute with a feed-through implementation (input -> fork -> output: the designated cell is a port)':
-            ['n:a:input', 'n:u:CELLX1', 'n:o:output', 'l:0:-:1:-', 'l:1:0:2:-', 'io:0', 'io:2', 'sub:1:A,input|A,__fork__|O,output;0.0.1.0|1.0.2.0;0,2'],
         'substitute of a cell with a line from its own output to its own input':
             ['n:a:input', 'n:u:CELLX1', 'n:o:output', 'l:0:-:1:0', 'l:1:0:1:1', 'l:1:1:2:-', 'io:0', 'io:2',
              'sub:1:A,__fork__|B,__fork__|X,AND2|X,__fork__|Y,BUF1|Y,__fork__;0.0.2.0|1.0.2.1|2.0.3.0|3.0.4.0|4.0.5.0;0,1,3,5'],
